@@ -40,10 +40,13 @@ RULE = (
 ASSUMPTIONS = [
     "the library-side reference is the checker's reading of the documented meaning of each tag (doc/setting-tags.md, doc/command-options.md), written with explicit API calls (read POSCAR, Phonopy(...), parse_FORCE_SETS, produce_force_constants, run_*)",
     "files are compared at the precision printed in them; route-swapped directories are compared file by file (numbers exactly, since both runs execute the same code) ignoring the echo of the command line / configuration block in phonopy.yaml",
-    "vasp calculator only at the file level (units of other calculators are C17's subject); tags needing absent packages (symfc, alm, pypolymlp, seekpath) and plotting options are excluded",
+    "vasp and qe calculators at the file level (units of the other calculators are C17's subject); tags needing absent packages (symfc, alm, pypolymlp, seekpath) and plotting options are excluded",
     "stale files are injected only where the documentation says they are not read (BORN without NAC in the phonopy command; FORCE_CONSTANTS without --readfc in the phonopy command)",
 ]
 
+CELLFILE = {"vasp": "POSCAR", "qe": "unitcell.in"}
+CALC_OPT = {"vasp": [], "qe": ["--qe"]}
+FC_UNIT_LABEL = {"vasp": "eV/angstrom^2", "qe": "Ry/au^2"}  # documented force-constant unit per calculator
 _E = None
 
 
@@ -209,7 +212,7 @@ def gen_post_step(rng, w, has_born, prev_wrote_fc, force_cmd=None):
         s["writefc"] = True
         if rng.random() < 0.5:
             s["full_fc"] = True
-        if rng.random() < 0.3:
+        if rng.random() < 0.5:
             s["writefc_format"] = "hdf5"
     elif mode == "readfc":
         s["readfc"] = True
@@ -253,7 +256,8 @@ def gen_spec(seed, index, tier):
     else:
         dim = _fmt(smat.ravel())
     pa = w.primitive_matrix if isinstance(w.primitive_matrix, str) else "P"
-    disp = {"create_displacements": True, "dim": dim, "pa": pa.upper() if pa != "auto" else "AUTO", "cell": "POSCAR"}
+    calc = "qe" if rng.random() < 0.3 else "vasp"
+    disp = {"create_displacements": True, "dim": dim, "pa": pa.upper() if pa != "auto" else "AUTO", "cell": CELLFILE[calc]}
     if rng.random() < 0.5:
         disp["amplitude"] = rng.choice([0.02, 0.03])
     if rng.random() < 0.3:
@@ -276,7 +280,7 @@ def gen_spec(seed, index, tier):
     stale = []
     if index % 2 == 1:
         stale = sorted(rng.sample(["BORN", "FORCE_CONSTANTS"], rng.randint(1, 2)))
-    return dict(seed=seed, world=w.spec, dim=dim, pa=disp["pa"], disp=disp, steps=steps, routes=routes, has_born=has_born, stale=stale, save_params=rng.random() < 0.3)
+    return dict(seed=seed, world=w.spec, calc=calc, dim=dim, pa=disp["pa"], disp=disp, steps=steps, routes=routes, has_born=has_born, stale=stale, save_params=rng.random() < 0.3)
 
 
 # ------------------------------------------------------------------ running the CLI in a fresh process
@@ -322,9 +326,10 @@ def _ref_object(spec, s, path, cmd):
     from phonopy.file_IO import parse_BORN, parse_FORCE_CONSTANTS, parse_FORCE_SETS, read_force_constants_hdf5
     from phonopy.interface.calculator import get_default_physical_units
     from phonopy.interface.phonopy_yaml import PhonopyYaml
-    from phonopy.interface.vasp import read_vasp
+    from phonopy.interface.calculator import read_crystal_structure
 
-    units = get_default_physical_units("vasp")
+    calc = spec.get("calc", "vasp")
+    units = get_default_physical_units(calc)
     load_mode = cmd == "phonopy-load"
     kw = dict(factor=float(s.get("factor", units["factor"])), symprec=float(s.get("tolerance", 1e-5)), is_symmetry=not s.get("nosym", False), log_level=0)
     if load_mode:
@@ -350,11 +355,11 @@ def _ref_object(spec, s, path, cmd):
             n["method"] = s["nac_method"]
             ph.nac_params = n
         return ph, nac
-    cell = read_vasp("POSCAR")
+    cell, _ = read_crystal_structure(CELLFILE[calc], interface_mode=calc)
     smat = [int(x) for x in spec["dim"].split()]
     smat = np.diag(smat) if len(smat) == 3 else np.reshape(smat, (3, 3))
     pa = spec["pa"]
-    ph = Phonopy(cell, supercell_matrix=smat, primitive_matrix=(pa.lower() if pa == "AUTO" else pa), **kw)
+    ph = Phonopy(cell, supercell_matrix=smat, primitive_matrix=(pa.lower() if pa == "AUTO" else pa), calculator=(None if calc == "vasp" else calc), **kw)
     nac = bool(s.get("nac", False))
     if nac and os.path.exists("BORN"):
         n = parse_BORN(ph.primitive, filename="BORN")
@@ -534,7 +539,8 @@ def parse_outputs(path, step):
         from phonopy.file_IO import parse_FORCE_CONSTANTS, read_force_constants_hdf5
 
         if s.get("writefc_format") == "hdf5":
-            out.update(fc=read_force_constants_hdf5(j("force_constants.hdf5")), _dec=None)
+            fc_, unit_ = read_force_constants_hdf5(j("force_constants.hdf5"), return_physical_unit=True)
+            out.update(fc=fc_, fc_unit=unit_, _dec=None)
         else:
             out.update(fc=parse_FORCE_CONSTANTS(j("FORCE_CONSTANTS")), _dec={"fc": 15})
     return out
@@ -607,6 +613,8 @@ def execute(spec):
     log = []
     steps_d = {"cli_invocations": 0, "process_restarts": 0, "peer_jobs": 0, "post_steps_completed": 0}
     routes = spec["routes"]
+    calc = spec.get("calc", "vasp")
+    L, Funit = peers.UNITS[calc]
     swapped = {k: ("opt" if v == "tag" else "tag") for k, v in routes.items()}
     tag_hits = {}
 
@@ -629,10 +637,13 @@ def execute(spec):
 
     with simfs.RunDir("c18a-") as A, simfs.RunDir("c18b-") as B, contextlib.ExitStack() as refdirs:
         # ---- the user's POSCAR (and BORN)
-        cell = w.unitcell()
+        from phonopy.structure.atoms import PhonopyAtoms as _PA
+
+        c0 = w.unitcell()
+        cell = _PA(symbols=c0.symbols, cell=np.array(c0.cell) / L, scaled_positions=c0.scaled_positions)
         os.chdir(A.path)
         with contextlib.redirect_stdout(io.StringIO()):
-            peers.write_structure("vasp", "POSCAR", cell, ("x",), author=True)
+            peers.write_structure(calc, CELLFILE[calc], cell, peers.structure_info(calc, cell.symbols), author=True)
         if spec["has_born"]:
             from phonopy import Phonopy
             from phonopy.file_IO import write_BORN
@@ -644,8 +655,8 @@ def execute(spec):
         os.chdir("/")
         shutil.copytree(A.path, B.path, dirs_exist_ok=True)
         # ---- step 1: create displacements, both routes
-        rA = run_cli(A.path, "phonopy", spec["disp"], routes)
-        rB = run_cli(B.path, "phonopy", spec["disp"], swapped)
+        rA = run_cli(A.path, "phonopy", spec["disp"], routes, CALC_OPT[calc])
+        rB = run_cli(B.path, "phonopy", spec["disp"], swapped, CALC_OPT[calc])
         if rA["code"] != 0 or rB["code"] != 0 or not os.path.exists(os.path.join(A.path, "phonopy_disp.yaml")):
             if (rA["code"] != 0) != (rB["code"] != 0):
                 V("route-swap-differs", "disp:exit-status", a=rA["code"], b=rB["code"], argv_a=rA["argv"], argv_b=rB["argv"], out_a=rA["stdout"][-300:], out_b=rB["stdout"][-300:])
@@ -661,14 +672,14 @@ def execute(spec):
         try:
             from phonopy import Phonopy
             from phonopy.interface.phonopy_yaml import PhonopyYaml
-            from phonopy.interface.vasp import read_vasp
+            from phonopy.interface.calculator import get_default_displacement_distance, read_crystal_structure
 
             d = spec["disp"]
-            ucell = read_vasp("POSCAR")
+            ucell, _ = read_crystal_structure(CELLFILE[calc], interface_mode=calc)
             smat = [int(x) for x in spec["dim"].split()]
             smat = np.diag(smat) if len(smat) == 3 else np.reshape(smat, (3, 3))
             ref = Phonopy(ucell, supercell_matrix=smat, primitive_matrix=(spec["pa"].lower() if spec["pa"] == "AUTO" else spec["pa"]), log_level=0)
-            ref.generate_displacements(distance=float(d.get("amplitude", 0.01)), is_plusminus=(True if d.get("pm") else "auto"), is_diagonal=not d.get("nodiag", False))
+            ref.generate_displacements(distance=float(d.get("amplitude", get_default_displacement_distance(calc))), is_plusminus=(True if d.get("pm") else "auto"), is_diagonal=not d.get("nodiag", False))
             py = PhonopyYaml()
             py.read("phonopy_disp.yaml")
             ds = py.dataset
@@ -683,19 +694,25 @@ def execute(spec):
             ndisp = len(ds["first_atoms"])
             # POSCAR-xxx must be the library's displaced supercells (up to the stable grouping by species)
             outputs = []
-            fc_model = w.force_constants(sc)
+            sc_A = _PA(symbols=sc.symbols, cell=np.array(sc.cell) * L, scaled_positions=sc.scaled_positions)
+            fc_model = w.force_constants(sc_A)
+            species_order = list(dict.fromkeys(ucell.symbols))
             for i, cwd in enumerate(ref.supercells_with_displacements):
-                fn = "POSCAR-%03d" % (i + 1)
-                rc, _ = peers.read_structure("vasp", fn)
+                fn = {"vasp": "POSCAR-%03d", "qe": "supercell-%03d.in"}[calc] % (i + 1)
+                peers.fix_structure_file(calc, fn, natom=len(sc), ntyp=len(set(sc.symbols)), species=species_order)
+                if calc == "qe":
+                    shutil.copy(fn, os.path.join(B.path, fn))  # the user-completed input, same in both directories
+                rc, _ = peers.read_structure(calc, fn)
                 from .check_c17 import same_crystal
 
                 ok, how, _ = same_crystal(cwd.cell, cwd.scaled_positions, cwd.symbols, rc.cell, rc.scaled_positions, rc.symbols)
                 if not ok:
                     V("cli-differs-from-library", "disp:POSCAR-N", file=fn, detail=how)
                     break
-                F, perm = peers.harmonic_forces_for_file(rc, sc, fc_model, 1.0)
-                peers.write_force_output("vasp", "vasprun.xml-%03d" % (i + 1), rc, F, energy=-5.0 - i)
-                outputs.append("vasprun.xml-%03d" % (i + 1))
+                F, perm = peers.harmonic_forces_for_file(rc, sc_A, fc_model, L)
+                oname = {"vasp": "vasprun.xml-%03d", "qe": "pw-%03d.out"}[calc] % (i + 1)
+                peers.write_force_output(calc, oname, rc, F, energy=-5.0 - i)
+                outputs.append(oname)
                 steps_d["peer_jobs"] += 1
             for f in outputs:
                 shutil.copy(os.path.join(A.path, f), os.path.join(B.path, f))
@@ -704,7 +721,7 @@ def execute(spec):
         if len(outputs) != ndisp:
             return _result(spec, violations, faults, probes, log, steps_d, tag_hits, False)
         # ---- step 2: collect forces (no tag equivalent: same invocation in both directories)
-        pos = ["-f"] + outputs + (["--sp"] if spec["save_params"] else [])
+        pos = CALC_OPT[calc] + ["-f"] + outputs + (["--sp"] if spec["save_params"] else [])
         r2 = sub(child_cli, (A.path, "phonopy", "", [], pos))
         sub(child_cli, (B.path, "phonopy", "", [], pos))
         steps_d["cli_invocations"] += 2
@@ -730,9 +747,9 @@ def execute(spec):
         errs = []
         for dsp in dsf["first_atoms"]:
             u = np.zeros((len(sc), 3))
-            u[dsp["number"]] = dsp["displacement"]
-            errs.append(float(np.max(np.abs(-np.einsum("ijab,jb->ia", fc_model, u) - np.array(dsp["forces"])))))
-        if max(errs) > 1e-9 * max(1.0, float(np.max(np.abs(fc_model)))):
+            u[dsp["number"]] = np.array(dsp["displacement"]) * L
+            errs.append(float(np.max(np.abs(-np.einsum("ijab,jb->ia", fc_model, u) / Funit - np.array(dsp["forces"])))))
+        if max(errs) > 2e-9 * max(1.0, float(np.max(np.abs(fc_model)))):
             V("cli-differs-from-library", "collect:FORCE_SETS", max_err=max(errs))
         # ---- stale files of an unrelated calculation
         if spec["stale"]:
@@ -742,7 +759,7 @@ def execute(spec):
 
                 for name in spec["stale"]:
                     if name == "FORCE_CONSTANTS":
-                        write_FORCE_CONSTANTS(fc_model * 0.5)
+                        write_FORCE_CONSTANTS(fc_model * 0.5 / peers.fc_unit(calc))
                         faults["stale_file:FORCE_CONSTANTS"] = 1
                     elif name == "BORN" and not spec["has_born"] and CRYSTALS[w.name].get("nac"):
                         from phonopy import Phonopy
@@ -776,8 +793,8 @@ def execute(spec):
             if mode == "readfc" and stale_fc:
                 continue
             if cmd == "phonopy":
-                full = dict(s, dim=spec["dim"], pa=spec["pa"], cell="POSCAR")
-                positional = []
+                full = dict(s, dim=spec["dim"], pa=spec["pa"], cell=CELLFILE[calc])
+                positional = list(CALC_OPT[calc])
             else:
                 full = dict(s, fc_calc="traditional")
                 positional = ["phonopy_disp.yaml"]
@@ -853,6 +870,8 @@ def execute(spec):
                 cmp_num("heat_capacity", got["Cv"], ref["Cv"], dget("heat_capacity", 7), bad)
             elif mode == "writefc":
                 a, b = got["fc"], ref["fc"]
+                if "fc_unit" in got and got["fc_unit"] != FC_UNIT_LABEL[calc]:
+                    bad.append(("force_constants.physical_unit", "file says %r, calculator %s works in %r" % (got["fc_unit"], calc, FC_UNIT_LABEL[calc])))
                 if a.shape != b.shape:
                     bad.append(("force_constants", "shape %s vs %s (full_fc=%s)" % (a.shape, b.shape, s.get("full_fc", False))))
                 else:
@@ -868,7 +887,10 @@ def execute(spec):
             log.append((label, sorted(s), core.digest({k: v for k, v in got.items() if v is not None})))
         # ---- the summary file reloads to the calculation that was run
         # (with a left-over FORCE_CONSTANTS in the directory load() takes it by its documented priority: not asserted then)
-        if last_ref is not None and os.path.exists(os.path.join(A.path, "phonopy.yaml")) and not violations and "stale_file:FORCE_CONSTANTS" not in faults and last_mode != "readfc":
+        fc_file_present = os.path.exists(os.path.join(A.path, "FORCE_CONSTANTS")) or os.path.exists(os.path.join(A.path, "force_constants.hdf5"))
+        if fc_file_present:
+            probes["reload_not_asserted:force_constants_file_in_directory"] = 1  # also one written by an earlier write-fc step with other symmetrisation settings
+        if last_ref is not None and os.path.exists(os.path.join(A.path, "phonopy.yaml")) and not violations and not fc_file_present and last_mode != "readfc":
             rl = sub(child_reload, (A.path, bool(last_ref.get("nac_used")), last_sym))
             if rl["D"] is None:
                 V("summary-reload-differs", "phonopy.yaml:no-force-constants", files=sorted(os.listdir(A.path)))
